@@ -22,6 +22,7 @@ import (
 
 func init() {
 	vHarnesses["VerifH_C10_badger"] = VerifH_C10_badger
+	vHarnesses["VerifH_C10_badger_volume"] = VerifH_C10_badger_volume
 }
 
 type c10bWrite struct {
@@ -191,4 +192,9 @@ func c10bOpen() kvi.KVInterface {
 // answers like the sorted-map model.
 func VerifH_C10_badger() {
 	c10Run(c10bOpen(), "badger")
+}
+
+// VerifH_C10_badger_volume: DeletePrefix over key counts around its block size.
+func VerifH_C10_badger_volume() {
+	c10Volume(c10bOpen(), "badger")
 }
